@@ -189,6 +189,7 @@ def run_login(run, rng, pv, order, threshold, terminal, server_id, auth,
         if name != 'login_start':
             state['errors'].append('expected login start, got %s' % name)
             return
+        state['login_name'] = vals.get('name')
         pending = 0
         carry = []
         tail = []
@@ -354,6 +355,12 @@ def run_login(run, rng, pv, order, threshold, terminal, server_id, auth,
                                                      'CLIENT')
             tok.profile = authentication.Profile('0123abcd', 'authname')
             kw['auth_token'] = tok
+        # the configured user name travels as it is (any length, any script)
+        user = rng.choice(('vfuser', 'vfuser', '\u00e9\u4e2d', 'N' * 16,
+                           'x' * 40, 'a b', 'Z'))
+        if not auth:
+            kw['username'] = user
+        w['username'] = user if not auth else 'authname'
         conn = pc.make_connection(server.port, rec, allowed_versions={pv},
                                   decoy=rng.random() < 0.3, **kw)
         w['negotiated'] = negotiated
@@ -495,6 +502,9 @@ def run_login(run, rng, pv, order, threshold, terminal, server_id, auth,
                 'does not admit', errors=state['errors'][:3],
                 client_exc=repr(rec.exceptions[:1]))
             return None
+        if not early_reset and state.get('login_name') != w['username']:
+            bad('login/name', 'login start does not name the configured user '
+                '/ the authenticated profile', got=state.get('login_name'))
         obs = state['obs']
         if 'E' in order:
             run.count('encryptions')
